@@ -35,7 +35,7 @@ ANCHORS = [
     ("deepali.spatial.bspline", "BSplineTransform.grid_"),
     ("deepali.spatial.bspline", "BSplineTransform.evaluate_spline"),
 ]
-N_CASES = {"quick": 120, "thorough": 5000}
+N_CASES = {"quick": 120, "thorough": 15000}
 BUDGET = {"quick": 400, "thorough": 3600}
 MAX_SIZE_1D = 64
 STRIDES = list(range(1, 17))
